@@ -891,8 +891,8 @@ def oracle_C02(case: dict, real: dict, model: dict) -> List[str]:
                 out.append(f"{m}: scalar validator reported {e}")
                 continue
             pids = inv["err"]["pids"]
-            pos = [order.index(p) for p in pids if p in order]
-            if len(pos) != len(pids) or pos != sorted(pos) or len(set(pos)) != len(pos):
+            it = iter(order)
+            if not all(any(p == q for q in it) for p in pids):   # subsequence of the declaration order
                 out.append(f"{m}: failing predicates {pids} are not listed in declaration order (sync before async)")
         # reached the predicate stage: every user predicate was evaluated exactly once, none skipped
         n_user = sum(1 for p in preds if p["k"] == "user")
